@@ -559,6 +559,22 @@ theorem tokenize_cut (doC : Bool) (a₁ a₂ b : Cps) (line col : Nat) (pre post
       post = tokensAt doC (a₂ ++ b) line' col' :=
   tokensAt_cut doC a₁ a₂ b line col pre post h hs
 
+/-- **a rendered lexeme list followed by a space is a closed prefix** (the syntactic sufficient condition for the
+boundary of `tokenize_append`): append a space and ANY text `b` to a non-empty list of well-formed lexemes — the tokens
+are the lexemes' tokens (`pre`: types and values `expectedAll ts`, source text `render2 ts`), and then the tokens of
+` b` from the position reached; nothing in `b` can reach back into the lexemes. -/
+theorem lexemes_then_anything (doC : Bool) (ts : List Lex2) (hne : ts ≠ []) (h : ∀ t ∈ ts, t.WF) (b : Cps)
+    (line col : Nat) :
+    ∃ pre line' col', tokensAt doC (render2 ts ++ 32 :: b) line col = pre ++ tokensAt doC (32 :: b) line' col' ∧
+      pre.map proj = expectedAll ts ∧ spans pre = render2 ts := by
+  obtain ⟨pre, l', c', h1, h2, h3, _⟩ :=
+    tokensAt_lexemes_tail doC ts hne h (32 :: b) (Or.inr ⟨b, rfl⟩) line col
+  exact ⟨pre, l', c', h1, h2, h3⟩
+
+/-- for instance an unterminated comment or string after the space does not swallow the lexemes before it -/
+example : (tokensAt true ([97, 32] ++ [47, 42, 32, 120]) 1 1).map proj =
+    [("IDENT", [97]), ("S", [32]), ("CHAR", [47]), ("CHAR", [42]), ("S", [32]), ("IDENT", [120])] := by decide +kernel
+
 /-- the hypothesis is satisfiable: `a ` + `b` -/
 example : tokensAt true ([97, 32] ++ [98]) 1 1 =
     [⟨"IDENT", [97], 1, 1, [97], [97], true⟩, ⟨"S", [32], 1, 2, [32], [32], true⟩] ++
